@@ -6,6 +6,12 @@ props=[json.loads(l) for l in open('/verif/properties.jsonl')]
 HOOK_COMMITS=["dc2fd90"]
 # id -> (technique, level text, level note)
 DONE={
+ "C08":("runtime monitoring: canonicality oracle (decode accepted => re-encode succeeds and is byte-identical => re-decode equal) over uniform, structure-aware mutated and guard-boundary byte strings; per-MType acceptance thresholds",
+        "held on the executions observed (>= 300 accepted inputs per MType or the run is inconclusive)",
+        "trusted: none beyond the harness generators; frames with MHDR RFU bits set are outside the property"),
+ "C09":("runtime monitoring: every decoder entry point called under recover() on hostile inputs with canary-guarded input buffers, per-case hang watchdog with single-case confirmation, memory blow-up guard",
+        "held on the executions observed for 156 entry points; 'linear time' is restated as bounded progress",
+        "trusted: Go runtime panics/recover semantics; a fatal (unrecoverable) error is attributed through the progress marker"),
  "C06":("runtime monitoring: table-driven reference model of every wire layout compared with the real Marshal/Unmarshal in both directions; complete byte-string sweeps for <= 2-byte payloads, MHDR, FCtrl, DLSettings and the (direction, CID) registry; decode-edit-re-encode sequences",
         "held on the executions observed; payloads of <= 2 bytes, the 256-value header bytes and the registry are enumerated completely, longer payloads by boundary patterns + seeded random strings",
         "trusted: layout tables in harness/spec/wire.go transcribed from LoRaWAN 1.0.4/1.1; revision-dependent fields listed in the evidence assumptions are not asserted"),
